@@ -782,6 +782,14 @@ impl Hier {
                     assert!(s.iter().all(|w| w.len() == 1), "MACHINERY: RRSIG windows incomplete");
                 }
             }
+            // key tag / DNSKEY RDATA / DS digest: this file's own computations against the library's
+            let lib = z.key.as_ref().expect("key").dnskey();
+            assert_eq!(rdata_of(&lib), z.dnskey, "MACHINERY: DNSKEY RDATA");
+            assert_eq!(lib.key_tag(), key_tag(&z.dnskey), "MACHINERY: key tag computation disagrees with the library");
+            assert_eq!(z.sets.get(&(key(&z.apex), T_DNSKEY)).map(|s| s.1.clone()), Some(vec![z.dnskey.clone()]), "MACHINERY: DNSKEY set");
+            for (h, o) in &z.n3 {
+                assert_eq!(b32hex(h), o.last().unwrap().to_ascii_lowercase(), "MACHINERY: base32hex");
+            }
             if let Denial::Nsec3 { salt, iters, opt_out } = &z.denial {
                 for n in z.names.iter().chain(z.ents.iter()) {
                     let is_insecure_cut = z.has(n, T_NS) && n != &key(&z.apex) && !z.has(n, T_DS);
@@ -1062,6 +1070,10 @@ enum Op {
     Forge,
     /// answer RRset forged and signed with the real key of a zone that is not an ancestor of the owner
     OutOfBailiwick,
+    /// DS RRset at the cut forged and signed by the CHILD zone's real key (signer = owner; RFC 4035 5.3.1
+    /// wants the parent).  The forged set is covered by a chain to the trust anchor, so the property text
+    /// does not decide: information only.
+    DsSignedByChild,
 }
 
 impl Op {
@@ -1090,13 +1102,14 @@ impl Op {
             Op::InjectInsecure { .. } => "inject-insecure-rrset".into(),
             Op::Forge => "forged-key-same-tag".into(),
             Op::OutOfBailiwick => "signer-not-ancestor".into(),
+            Op::DsSignedByChild => "ds-signed-by-child".into(),
         }
     }
     /// Faults that need the zone's real private key (hostile zone owner):
     /// the data they produce is "authentic" by definition, so only the
     /// no-panic / termination part of the property is judged.
     fn owner_adversary(&self) -> bool {
-        matches!(self, Op::N3Owner { resign: true, .. } | Op::N3Param { .. })
+        matches!(self, Op::N3Owner { resign: true, .. } | Op::N3Param { .. } | Op::DsSignedByChild)
     }
 }
 
@@ -1467,6 +1480,42 @@ fn check_secure(h: &Hier, out: &[u8], kinds: &str) -> Vec<Finding> {
             }
         }
     }
+    // every (authentic) RRset must come with a signature that is valid NOW: the only such signatures
+    // that exist for authentic data are the ones the real signer made for the current window
+    if f.is_empty() {
+        for s in 0..2 {
+            for ((ok, t), _, _) in &p.sets[s] {
+                if *t == T_RRSIG {
+                    continue;
+                }
+                let mut valid: Vec<&Vec<u8>> = vec![];
+                let owner = unkey(ok);
+                for z in &h.zones {
+                    if let Some(w) = z.sigs.get(&(ok.clone(), *t)) {
+                        valid.extend(w[0].iter());
+                    }
+                }
+                if let Truth::Pos { zone, src, wildcard: true, .. } = h.classify(&owner, *t) {
+                    if let Some(w) = h.zones[zone].sigs.get(&(src, *t)) {
+                        valid.extend(w[0].iter());
+                    }
+                }
+                let present = p.sets[s].iter().find(|x| x.0 == (ok.clone(), T_RRSIG)).map(|x| x.1.clone()).unwrap_or_default();
+                if !present.iter().any(|rd| valid.contains(&rd)) {
+                    f.push(Finding {
+                        sig: format!("C14|validator|secure-without-valid-unexpired-signature|fault={kinds}|rtype={}|section={}", tname(*t), ["answer", "authority"][s]),
+                        what: format!(
+                            "Secure reported although RRset {} {} in the {} section carries none of the currently valid RRSIGs of the authentic zone ({} RRSIG present)",
+                            show(&owner),
+                            tname(*t),
+                            ["answer", "authority"][s],
+                            present.iter().filter(|rd| rd.len() > 2 && u16::from_be_bytes([rd[0], rd[1]]) == *t).count()
+                        ),
+                    });
+                }
+            }
+        }
+    }
     // the claim
     let mut sname = p.qname.clone();
     for _ in 0..12 {
@@ -1498,7 +1547,243 @@ fn check_secure(h: &Hier, out: &[u8], kinds: &str) -> Vec<Finding> {
             what: format!("Secure reported for an NXDOMAIN response for {} {} although the authentic zone has {}", show(&sname), tname(p.qtype), truth.short()),
         });
     }
+    if f.is_empty() {
+        if let Some(missing) = check_proof(h, &p, &sname, has_answer) {
+            f.push(Finding {
+                sig: format!("C14|validator|secure-without-complete-denial-proof|fault={kinds}|denial={}", if h.nsec3 { "nsec3" } else { "nsec" }),
+                what: format!("Secure reported although the authority section holds no complete NSEC/NSEC3 proof of: {missing}"),
+            });
+        }
+    }
     f
+}
+
+// ---- independent denial-proof checker (RFC 4035 5.4, RFC 4592, RFC 5155 8.3-8.8)
+
+fn bitmap_types(b: &[u8]) -> BTreeSet<u16> {
+    let mut out = BTreeSet::new();
+    let mut p = 0;
+    while p + 2 <= b.len() {
+        let w = b[p] as u16;
+        let l = b[p + 1] as usize;
+        for (i, &oct) in b.get(p + 2..p + 2 + l).unwrap_or(&[]).iter().enumerate() {
+            for bit in 0..8 {
+                if oct & (0x80 >> bit) != 0 {
+                    out.insert(w * 256 + (i as u16) * 8 + bit);
+                }
+            }
+        }
+        p += 2 + l;
+    }
+    out
+}
+
+struct NsecRec {
+    o: Labels, // keys
+    n: Labels,
+    types: BTreeSet<u16>,
+}
+
+struct Nsec3Rec {
+    ho: Vec<u8>,
+    hn: Vec<u8>,
+    salt: Vec<u8>,
+    iters: u16,
+    types: BTreeSet<u16>,
+}
+
+fn is_desc(x: &Labels, anc: &Labels) -> bool {
+    // keys: ancestor is a prefix
+    x.len() > anc.len() && x[..anc.len()] == anc[..]
+}
+
+fn common(a: &Labels, b: &Labels) -> Labels {
+    a.iter().zip(b.iter()).take_while(|(x, y)| x == y).map(|(x, _)| x.clone()).collect()
+}
+
+struct Proofs {
+    apexk: Labels,
+    nsec: Vec<NsecRec>,
+    nsec3: Vec<Nsec3Rec>,
+}
+
+impl Proofs {
+    fn deleg_or_dname(t: &BTreeSet<u16>) -> bool {
+        t.contains(&39) || (t.contains(&T_NS) && !t.contains(&T_SOA))
+    }
+    /// NSEC: x (key) proven not to exist; returns the closest encloser.
+    fn nsec_nonexist(&self, x: &Labels) -> Option<Labels> {
+        for r in &self.nsec {
+            let covers = r.o < *x && (*x < r.n || r.n <= r.o);
+            if !covers {
+                continue;
+            }
+            if is_desc(&r.n, x) {
+                continue; // x is an empty non-terminal
+            }
+            if is_desc(x, &r.o) && Self::deleg_or_dname(&r.types) {
+                continue;
+            }
+            let a = common(x, &r.o);
+            let b = common(x, &r.n);
+            return Some(if a.len() >= b.len() { a } else { b });
+        }
+        None
+    }
+    fn nsec_nodata(&self, x: &Labels, t: u16) -> bool {
+        for r in &self.nsec {
+            if r.o == *x && !r.types.contains(&t) && !r.types.contains(&T_CNAME) {
+                return true;
+            }
+            let covers = r.o < *x && (*x < r.n || r.n <= r.o);
+            if covers && is_desc(&r.n, x) {
+                return true; // empty non-terminal
+            }
+        }
+        if let Some(ce) = self.nsec_nonexist(x) {
+            let mut st = ce.clone();
+            st.push(b"*".to_vec());
+            for r in &self.nsec {
+                if r.o == st && !r.types.contains(&t) && !r.types.contains(&T_CNAME) {
+                    return true;
+                }
+            }
+        }
+        false
+    }
+    fn nsec_nxdomain(&self, x: &Labels) -> bool {
+        match self.nsec_nonexist(x) {
+            Some(ce) => {
+                let mut st = ce;
+                st.push(b"*".to_vec());
+                self.nsec_nonexist(&st).is_some()
+            }
+            None => false,
+        }
+    }
+    fn h3(&self, xk: &Labels) -> Option<Vec<u8>> {
+        let r = self.nsec3.first()?;
+        Some(n3hash(&unkey(xk), &r.salt, r.iters))
+    }
+    fn n3_match(&self, xk: &Labels) -> Option<&Nsec3Rec> {
+        let h = self.h3(xk)?;
+        self.nsec3.iter().find(|r| r.ho == h)
+    }
+    fn n3_cover(&self, xk: &Labels) -> bool {
+        let Some(h) = self.h3(xk) else { return false };
+        self.nsec3.iter().any(|r| if r.ho < r.hn { r.ho < h && h < r.hn } else { h > r.ho || h < r.hn })
+    }
+    /// closest-encloser proof for x: a (provably existing) ancestor whose next closer name is covered
+    fn n3_ce(&self, x: &Labels) -> Option<Labels> {
+        let mut ce = x.clone();
+        while ce.len() > self.apexk.len() {
+            let nc = ce.clone();
+            ce.pop();
+            let exists = ce == self.apexk || self.n3_match(&ce).map(|r| !Self::deleg_or_dname(&r.types)).unwrap_or(false);
+            if exists && self.n3_cover(&nc) {
+                return Some(ce);
+            }
+        }
+        None
+    }
+    fn n3_nodata(&self, x: &Labels, t: u16) -> bool {
+        if let Some(r) = self.n3_match(x) {
+            if !r.types.contains(&t) && !r.types.contains(&T_CNAME) {
+                return true;
+            }
+        }
+        if let Some(ce) = self.n3_ce(x) {
+            let mut st = ce;
+            st.push(b"*".to_vec());
+            if let Some(r) = self.n3_match(&st) {
+                return !r.types.contains(&t) && !r.types.contains(&T_CNAME);
+            }
+        }
+        false
+    }
+    fn n3_nxdomain(&self, x: &Labels) -> bool {
+        match self.n3_ce(x) {
+            Some(ce) => {
+                let mut st = ce;
+                st.push(b"*".to_vec());
+                self.n3_cover(&st)
+            }
+            None => false,
+        }
+    }
+    fn nonexist_for_wildcard(&self, x: &Labels, ce: &Labels) -> bool {
+        if self.nsec_nonexist(x).is_some() {
+            return true;
+        }
+        let nc: Labels = x[..(ce.len() + 1).min(x.len())].to_vec();
+        self.n3_cover(&nc)
+    }
+}
+
+/// Does the authority section hold a complete proof for what the (Secure) message claims?
+/// Only NSEC/NSEC3 RRsets that are authentic data of the zone the claim is about are used.
+fn check_proof(h: &Hier, p: &Parsed, sname: &Labels, has_answer: bool) -> Option<String> {
+    let mut need: Vec<(usize, String, Box<dyn Fn(&Proofs) -> bool>)> = vec![];
+    for ((ok, t), _, _) in &p.sets[0] {
+        if *t == T_RRSIG {
+            continue;
+        }
+        let o = unkey(ok);
+        match h.classify(&o, *t) {
+            Truth::Pos { zone, wildcard: true, ce, .. } => {
+                let (x, ce) = (ok.clone(), ce.clone());
+                need.push((zone, format!("non-existence of {} for the wildcard expansion", show(&o)), Box::new(move |pr| pr.nonexist_for_wildcard(&x, &ce))));
+            }
+            _ => {}
+        }
+    }
+    let truth = h.classify(sname, p.qtype);
+    let zi = truth.zone();
+    let sk = key(sname);
+    let qt = p.qtype;
+    if p.rcode == 0 && !has_answer {
+        let x = sk.clone();
+        need.push((zi, format!("NODATA for {} {}", show(sname), tname(qt)), Box::new(move |pr| pr.nsec_nodata(&x, qt) || pr.n3_nodata(&x, qt))));
+    } else if p.rcode == 3 {
+        let x = sk.clone();
+        need.push((zi, format!("NXDOMAIN for {}", show(sname)), Box::new(move |pr| pr.nsec_nxdomain(&x) || pr.n3_nxdomain(&x))));
+    }
+    for (zi, what, f) in need {
+        let z = &h.zones[zi];
+        if !z.secure {
+            continue;
+        }
+        let mut pr = Proofs { apexk: key(&z.apex), nsec: vec![], nsec3: vec![] };
+        for ((ok, t), rds, _) in &p.sets[1] {
+            if !(*t == T_NSEC || *t == T_NSEC3) || rds.len() != 1 {
+                continue;
+            }
+            if z.sets.get(&(ok.clone(), *t)).map(|s| s.1 == *rds) != Some(true) {
+                continue;
+            }
+            let rd = &rds[0];
+            if *t == T_NSEC {
+                let n = name_in_rdata(rd, 0);
+                let off = wire(&n).len();
+                pr.nsec.push(NsecRec { o: ok.clone(), n: key(&n), types: bitmap_types(&rd[off..]) });
+            } else {
+                let sl = rd[4] as usize;
+                let hl = rd[5 + sl] as usize;
+                let Some(ho) = ok.last().and_then(|l| unb32hex(l)) else { continue };
+                pr.nsec3.push(Nsec3Rec {
+                    ho,
+                    hn: rd[6 + sl..6 + sl + hl].to_vec(),
+                    salt: rd[5..5 + sl].to_vec(),
+                    iters: u16::from_be_bytes([rd[2], rd[3]]),
+                    types: bitmap_types(&rd[6 + sl + hl..]),
+                });
+            }
+        }
+        if !f(&pr) {
+            return Some(what);
+        }
+    }
+    None
 }
 
 /// What an unmodified answer must be reported as.
@@ -1512,8 +1797,9 @@ fn expected_unmodified(h: &Hier, q: &Query) -> Vec<&'static str> {
         }
         match t {
             Truth::Cname { target, .. } => name = target,
-            Truth::NoData { zone, .. } if h.opt_out && zone == 1 && q.qtype == T_DS && h.kind == Kind::InsecureChild && name == nm("zone.tld.") => {
-                // opt-out span: RFC 5155 9.2 says insecure; the property text does not decide
+            Truth::NoData { zone, .. } | Truth::NxDomain { zone, .. } if matches!(h.zones[zone].denial, Denial::Nsec3 { opt_out: true, .. }) => {
+                // negative answers of an opt-out zone: RFC 5155 9.2 says not AD when the covering
+                // NSEC3 has Opt-Out; the property text does not decide
                 return vec!["Insecure", "Secure"];
             }
             _ => break,
@@ -1526,32 +1812,949 @@ fn expected_unmodified(h: &Hier, q: &Query) -> Vec<&'static str> {
     }
 }
 
-fn apply_op(_h: &Hier, _op: &Op, _r: &mut Resp, _main: bool) {}
+// ------------------------------------------------------------ faults (application)
+
+/// Offset of the signature field in an RRSIG RDATA.
+fn sig_off(rd: &[u8]) -> usize {
+    let mut p = 18;
+    while p < rd.len() && rd[p] != 0 {
+        p += 1 + rd[p] as usize;
+    }
+    (p + 1).min(rd.len())
+}
+
+impl Resp {
+    fn find(&self, id: u16) -> Option<(usize, usize)> {
+        for s in 0..3 {
+            if let Some(i) = self.sec[s].iter().position(|e| e.id == id) {
+                return Some((s, i));
+            }
+        }
+        None
+    }
+    fn get_mut(&mut self, id: u16) -> Option<&mut RrE> {
+        let (s, i) = self.find(id)?;
+        Some(&mut self.sec[s][i])
+    }
+    fn remove(&mut self, ids: &[u16]) {
+        for s in 0..3 {
+            self.sec[s].retain(|e| !ids.contains(&e.id));
+        }
+    }
+    fn insert_at(&mut self, s: usize, i: usize, rr: Rr, src: (usize, Labels, u16)) {
+        let id = self.next_id;
+        self.next_id += 1;
+        let i = i.min(self.sec[s].len());
+        self.sec[s].insert(i, RrE { id, rr, src });
+    }
+}
+
+fn set_first_label(owner: &mut Labels, f: impl FnOnce(&mut Vec<u8>)) {
+    if owner.is_empty() {
+        owner.push(b"x".to_vec());
+    } else {
+        f(&mut owner[0]);
+        if owner[0].is_empty() {
+            owner.remove(0);
+        }
+    }
+}
+
+/// Re-sign, with `k`, every non-RRSIG RRset of section `s` whose source zone is `zi`:
+/// the existing RRSIGs of those sets are replaced.
+fn resign_section(h: &Hier, r: &mut Resp, s: usize, zi: usize, k: &SKey) {
+    let mut groups: Vec<(Labels, u16, u32, Vec<Vec<u8>>, (usize, Labels, u16))> = vec![];
+    for e in &r.sec[s] {
+        if e.rr.rtype == T_RRSIG || e.src.0 != zi {
+            continue;
+        }
+        match groups.iter_mut().find(|g| g.0 == e.rr.owner && g.1 == e.rr.rtype) {
+            Some(g) => g.3.push(e.rr.rdata.clone()),
+            None => groups.push((e.rr.owner.clone(), e.rr.rtype, e.rr.ttl, vec![e.rr.rdata.clone()], e.src.clone())),
+        }
+    }
+    let (inc, exp) = windows(h.now)[0];
+    for (owner, t, ttl, rds, src) in groups {
+        let mut rds = rds;
+        rds.sort();
+        rds.dedup();
+        let sig = sign_set(k, &owner, t, ttl, &rds, inc, exp);
+        let mut done = false;
+        for e in r.sec[s].iter_mut() {
+            if e.rr.rtype == T_RRSIG && e.rr.owner == owner && e.src.2 == t && e.src.0 == zi {
+                e.rr.rdata = sig.clone();
+                done = true;
+            }
+        }
+        if !done {
+            let at = r.sec[s].iter().rposition(|e| e.rr.owner == owner && e.rr.rtype == t).map(|i| i + 1).unwrap_or(r.sec[s].len());
+            r.insert_at(s, at, Rr { owner, rtype: T_RRSIG, class: 1, ttl, rdata: sig }, src);
+        }
+    }
+}
+
+fn apply_op(h: &Hier, op: &Op, r: &mut Resp, main: bool) {
+    match op {
+        Op::DropSet { ids, .. } => r.remove(ids),
+        Op::Dup { id } => {
+            if let Some((s, i)) = r.find(*id) {
+                let e = r.sec[s][i].clone();
+                r.insert_at(s, i + 1, e.rr, e.src);
+            }
+        }
+        Op::Ttl { ids, mode } => {
+            for id in ids {
+                if let Some(e) = r.get_mut(*id) {
+                    e.rr.ttl = match mode {
+                        0 => e.rr.ttl + 100_000,
+                        1 => 0,
+                        _ => 0x7fff_ffff,
+                    };
+                }
+            }
+        }
+        Op::FlipRdata { id, pos } => {
+            if let Some(e) = r.get_mut(*id) {
+                let n = e.rr.rdata.len();
+                if n > 0 {
+                    let (i, m) = match pos {
+                        0 => (0, 0x01),
+                        1 => (n / 2, 0x10),
+                        _ => (n - 1, 0x80),
+                    };
+                    e.rr.rdata[i] ^= m;
+                }
+            }
+        }
+        Op::FlipOwner { ids, mask } => {
+            for id in ids {
+                if let Some(e) = r.get_mut(*id) {
+                    set_first_label(&mut e.rr.owner, |l| l[0] ^= *mask);
+                }
+            }
+        }
+        Op::DropSig { id } => r.remove(&[*id]),
+        Op::ReplaceSig { id, zone, owner, covered, patch } => {
+            let donor = h.zones[*zone].sigs.get(&(key(&unshow(owner)), *covered)).map(|w| w[0][0].clone());
+            if let (Some(d), Some(e)) = (donor, r.get_mut(*id)) {
+                let want = e.src.2;
+                e.rr.rdata = d;
+                if *patch == 1 {
+                    e.rr.rdata[0..2].copy_from_slice(&want.to_be_bytes());
+                }
+            }
+        }
+        Op::SigField { id, field } => {
+            let parent_apex = |zi: usize| h.zones[zi.saturating_sub(1)].apex.clone();
+            if let Some(e) = r.get_mut(*id) {
+                let zi = e.src.0;
+                let rd = &mut e.rr.rdata;
+                let so = sig_off(rd);
+                match field {
+                    0 => rd[1] ^= 1,
+                    1 => rd[2] ^= 1,
+                    2 => rd[3] ^= 1,
+                    3 => rd[7] ^= 1,
+                    4 => rd[11] ^= 1,
+                    5 => rd[15] ^= 1,
+                    6 => rd[17] ^= 1,
+                    7 => {
+                        if rd[18] != 0 {
+                            rd[19] ^= 1;
+                        } else {
+                            rd.splice(18..19, [1, b'x', 0]);
+                        }
+                    }
+                    8 => {
+                        if so < rd.len() {
+                            rd[so] ^= 1
+                        }
+                    }
+                    9 => {
+                        let n = rd.len();
+                        rd[n - 1] ^= 1
+                    }
+                    10 => rd[3] = rd[3].wrapping_sub(1),
+                    11 | 12 => {
+                        let new = if *field == 11 { parent_apex(zi) } else { h.zones[(zi + 1).min(2)].apex.clone() };
+                        let w = wire(&new);
+                        rd.splice(18..so, w);
+                    }
+                    _ => {}
+                }
+            }
+        }
+        Op::Window { id, w } => {
+            if let Some(e) = r.get_mut(*id) {
+                if let Some(s) = h.zones[e.src.0].sigs.get(&(e.src.1.clone(), e.src.2)) {
+                    e.rr.rdata = s[*w as usize][0].clone();
+                }
+            }
+        }
+        Op::ManyBad { id, n } => {
+            if let Some((s, i)) = r.find(*id) {
+                let e = r.sec[s][i].clone();
+                for j in 0..*n {
+                    let mut rr = e.rr.clone();
+                    let l = rr.rdata.len();
+                    rr.rdata[l - 1] ^= (j as u8).wrapping_add(1);
+                    rr.rdata[l - 2] ^= ((j >> 8) as u8).wrapping_add(0x40);
+                    r.insert_at(s, i, rr, e.src.clone());
+                }
+            }
+        }
+        Op::Key { id, how } => {
+            if let Some((s, i)) = r.find(*id) {
+                let e = r.sec[s][i].clone();
+                let rd = &mut r.sec[s][i].rr.rdata;
+                let kl = rd.len() - 4;
+                match how {
+                    0 => rd.truncate(4),
+                    1 => rd.truncate(4 + kl / 2),
+                    2 => rd.truncate(4 + kl - 1),
+                    3 => {
+                        for b in rd[4..].iter_mut() {
+                            *b = 0xAA
+                        }
+                    }
+                    4 => rd[0] &= !0x01,
+                    5 => rd[3] = 1,
+                    6 => rd[3] = 15,
+                    7 => rd[2] = 2,
+                    8 => rd.truncate(5),
+                    _ => {
+                        let mut rr = e.rr.clone();
+                        rr.rdata = vec![1, 1, 3, 8, 3, 1, 0];
+                        r.insert_at(s, i, rr, e.src);
+                    }
+                }
+            }
+        }
+        Op::Ds { id, how } => {
+            if let Some((s, i)) = r.find(*id) {
+                let e = r.sec[s][i].clone();
+                let rd = &mut r.sec[s][i].rr.rdata;
+                match how {
+                    0 => {
+                        let n = rd.len();
+                        rd[n - 1] ^= 1
+                    }
+                    1 => rd.truncate(4 + 16),
+                    2 => rd.truncate(4),
+                    3 => rd[3] = 1,
+                    4 => rd[3] = 99,
+                    5 => rd[2] = 15,
+                    6 => rd[1] = rd[1].wrapping_add(1),
+                    _ => {
+                        let mut rr = e.rr.clone();
+                        rr.rdata[2] = 15;
+                        r.insert_at(s, i, rr, e.src);
+                    }
+                }
+            }
+        }
+        Op::SwapDenial { ids, zone, owner } => {
+            let Some((s, i)) = ids.iter().filter_map(|id| r.find(*id)).min() else { return };
+            r.remove(ids);
+            let z = &h.zones[*zone];
+            let ok = key(&unshow(owner));
+            let t = if z.has(&ok, T_NSEC3) { T_NSEC3 } else { T_NSEC };
+            let Some((ttl, rds)) = z.sets.get(&(ok.clone(), t)) else { return };
+            let mut at = i;
+            let o = unkey(&ok);
+            for rd in rds {
+                r.insert_at(s, at, Rr { owner: o.clone(), rtype: t, class: 1, ttl: *ttl, rdata: rd.clone() }, (*zone, ok.clone(), t));
+                at += 1;
+            }
+            if let Some(sg) = z.sigs.get(&(ok.clone(), t)) {
+                for rd in &sg[0] {
+                    r.insert_at(s, at, Rr { owner: o.clone(), rtype: T_RRSIG, class: 1, ttl: *ttl, rdata: rd.clone() }, (*zone, ok.clone(), t));
+                    at += 1;
+                }
+            }
+        }
+        Op::N3Owner { ids, variant, resign } => {
+            let mut zi = None;
+            let mut section = 0;
+            for id in ids {
+                if let Some((s, _)) = r.find(*id) {
+                    section = s;
+                }
+                if let Some(e) = r.get_mut(*id) {
+                    zi = Some(e.src.0);
+                    set_first_label(&mut e.rr.owner, |l| match variant {
+                        0 => l[0] = b'z',
+                        1 => {
+                            l.pop();
+                        }
+                        2 => l.push(b'0'),
+                        3 => l.truncate(16),
+                        4 => l[0] = 0xff,
+                        5 => l.truncate(1),
+                        _ => l.make_ascii_uppercase(),
+                    });
+                }
+            }
+            if let (true, Some(zi)) = (*resign, zi) {
+                if let Some(k) = h.zones[zi].key.clone() {
+                    resign_subset(h, r, section, ids, &k);
+                }
+            }
+        }
+        Op::N3Param { ids, variant } => {
+            let mut zi = None;
+            let mut section = 0;
+            for id in ids {
+                if let Some((s, _)) = r.find(*id) {
+                    section = s;
+                }
+                if let Some(e) = r.get_mut(*id) {
+                    zi = Some(e.src.0);
+                    if e.rr.rtype != T_NSEC3 {
+                        continue;
+                    }
+                    let rd = &mut e.rr.rdata;
+                    match variant {
+                        0 => rd[2..4].copy_from_slice(&101u16.to_be_bytes()),
+                        1 => rd[2..4].copy_from_slice(&501u16.to_be_bytes()),
+                        2 => rd[0] = 2,
+                        3 => rd[1] |= 1,
+                        _ => {
+                            let sl = rd[4] as usize;
+                            let hl_at = 5 + sl;
+                            let hl = rd[hl_at] as usize;
+                            if hl > 1 {
+                                rd[hl_at] = (hl - 1) as u8;
+                                rd.remove(hl_at + hl);
+                            }
+                        }
+                    }
+                }
+            }
+            if let Some(zi) = zi {
+                if let Some(k) = h.zones[zi].key.clone() {
+                    resign_subset(h, r, section, ids, &k);
+                }
+            }
+        }
+        Op::Counts { which, mode } => {
+            let real = [1u16, r.sec[0].len() as u16, r.sec[1].len() as u16, r.sec[2].len() as u16][*which as usize];
+            r.counts[*which as usize] = Some(match mode {
+                0 => real.wrapping_add(1),
+                1 => real.wrapping_sub(1),
+                2 => 65535,
+                3 => 0,
+                _ => 2,
+            });
+        }
+        Op::Rcode { to } => r.rcode = *to,
+        Op::Cut { mode } => {
+            let n = r.encode().len() + r.cut;
+            r.cut = match mode {
+                0 => 1,
+                1 => n / 2,
+                _ => n.saturating_sub(11),
+            };
+        }
+        Op::UpErr => r.up_err = true,
+        Op::Empty => {
+            for s in 0..3 {
+                r.sec[s].clear();
+            }
+        }
+        Op::InjectInsecure { s } => {
+            let owner = nm("inj.zone.tld.");
+            r.push(*s as usize, Rr { owner: owner.clone(), rtype: T_A, class: 1, ttl: 3600, rdata: vec![192, 0, 2, 66] }, (2, key(&owner), T_A));
+        }
+        Op::Forge => {
+            let Some((fk, frd)) = &h.forged else { return };
+            if main {
+                for e in r.sec[0].iter_mut() {
+                    if e.rr.rtype != T_RRSIG && e.src.0 == 2 {
+                        let n = e.rr.rdata.len();
+                        e.rr.rdata[n - 1] ^= 0x40;
+                    }
+                }
+                resign_section(h, r, 0, 2, fk);
+                resign_section(h, r, 1, 2, fk);
+            } else if r.qtype == T_DNSKEY {
+                for e in r.sec[0].iter_mut() {
+                    if e.rr.rtype == T_DNSKEY {
+                        e.rr.rdata = frd.clone();
+                    }
+                }
+                resign_section(h, r, 0, 2, fk);
+            }
+        }
+        Op::OutOfBailiwick | Op::DsSignedByChild => {
+            let Some(k) = h.zones[2].key.clone() else { return };
+            for e in r.sec[0].iter_mut() {
+                if e.rr.rtype != T_RRSIG && e.src.0 == 1 {
+                    let n = e.rr.rdata.len();
+                    e.rr.rdata[n - 1] ^= 0x40;
+                }
+            }
+            resign_section(h, r, 0, 1, &k);
+        }
+    }
+}
+
+/// Re-sign the RRset formed by the non-RRSIG records among `ids` (section s) and store the
+/// signature in the RRSIG records among `ids`.
+fn resign_subset(h: &Hier, r: &mut Resp, s: usize, ids: &[u16], k: &SKey) {
+    let recs: Vec<&RrE> = r.sec[s].iter().filter(|e| ids.contains(&e.id) && e.rr.rtype != T_RRSIG).collect();
+    let Some(first) = recs.first() else { return };
+    let (owner, t, ttl) = (first.rr.owner.clone(), first.rr.rtype, first.rr.ttl);
+    let mut rds: Vec<Vec<u8>> = recs.iter().map(|e| e.rr.rdata.clone()).collect();
+    rds.sort();
+    rds.dedup();
+    let (inc, exp) = windows(h.now)[0];
+    let sig = sign_set(k, &owner, t, ttl, &rds, inc, exp);
+    for e in r.sec[s].iter_mut() {
+        if ids.contains(&e.id) && e.rr.rtype == T_RRSIG {
+            e.rr.rdata = sig.clone();
+        }
+    }
+}
+
+// ------------------------------------------------------------ faults (enumeration)
+
+struct SetPos {
+    s: usize,
+    t: u16,
+    zi: usize,
+    srck: Labels,
+    ids: Vec<u16>,
+    sigids: Vec<u16>,
+}
+
+fn sets_of(r: &Resp) -> Vec<SetPos> {
+    let mut v: Vec<SetPos> = vec![];
+    for s in 0..3 {
+        for e in &r.sec[s] {
+            if e.rr.rtype == T_RRSIG {
+                continue;
+            }
+            match v.iter_mut().find(|p| p.s == s && p.t == e.rr.rtype && p.srck == e.src.1 && p.zi == e.src.0) {
+                Some(p) => p.ids.push(e.id),
+                None => v.push(SetPos { s, t: e.rr.rtype, zi: e.src.0, srck: e.src.1.clone(), ids: vec![e.id], sigids: vec![] }),
+            }
+        }
+        for e in &r.sec[s] {
+            if e.rr.rtype != T_RRSIG {
+                continue;
+            }
+            if let Some(p) = v.iter_mut().find(|p| p.s == s && p.t == e.src.2 && p.srck == e.src.1 && p.zi == e.src.0) {
+                p.sigids.push(e.id);
+            }
+        }
+    }
+    v
+}
+
+/// Every fault of the menu at every position of the response `r`.
+/// The bool marks the representatives used for fault PAIRS.
+fn enumerate_ops(h: &Hier, r: &Resp, main: bool, swap_only: bool) -> Vec<(Op, bool)> {
+    let mut v: Vec<(Op, bool)> = vec![];
+    let sets = sets_of(r);
+    if !swap_only {
+        let real = [1usize, r.sec[0].len(), r.sec[1].len(), r.sec[2].len()];
+        for (which, mode) in [(0u8, 3u8), (0, 4), (1, 0), (1, 1), (1, 2), (2, 0), (2, 1), (2, 2), (3, 0), (3, 2)] {
+            if mode == 1 && real[which as usize] == 0 {
+                continue;
+            }
+            v.push((Op::Counts { which, mode }, (which, mode) == (1, 0) || (which, mode) == (2, 2)));
+        }
+        v.push((Op::Rcode { to: if r.rcode == 0 { 3 } else { 0 } }, true));
+        v.push((Op::Rcode { to: 2 }, false));
+        for mode in 0..3 {
+            v.push((Op::Cut { mode }, mode == 0));
+        }
+        v.push((Op::Empty, true));
+        if !main {
+            v.push((Op::UpErr, true));
+        }
+    }
+    for p in &sets {
+        let z = &h.zones[p.zi];
+        let all: Vec<u16> = p.ids.iter().chain(p.sigids.iter()).cloned().collect();
+        let denial = p.t == T_NSEC || p.t == T_NSEC3;
+        if denial && z.secure {
+            let mut first = true;
+            for (zi2, z2) in h.zones.iter().enumerate() {
+                if !z2.secure {
+                    continue;
+                }
+                let donors: Vec<Labels> = z2.sets.keys().filter(|(_, t)| *t == p.t).map(|(k, _)| k.clone()).collect();
+                for (n, d) in donors.iter().enumerate() {
+                    if zi2 == p.zi && *d == p.srck {
+                        continue;
+                    }
+                    if zi2 != p.zi && n > 0 {
+                        break; // one foreign-zone donor per zone
+                    }
+                    v.push((Op::SwapDenial { ids: all.clone(), zone: zi2, owner: show(&unkey(d)) }, first));
+                    first = false;
+                }
+            }
+        }
+        if swap_only {
+            continue;
+        }
+        v.push((Op::DropSet { ids: p.ids.clone(), with_sigs: false }, true));
+        if !p.sigids.is_empty() {
+            v.push((Op::DropSet { ids: all.clone(), with_sigs: true }, false));
+        }
+        v.push((Op::Dup { id: p.ids[0] }, true));
+        v.push((Op::Ttl { ids: p.ids.clone(), mode: 0 }, false));
+        v.push((Op::Ttl { ids: all.clone(), mode: 0 }, true));
+        v.push((Op::Ttl { ids: all.clone(), mode: 1 }, true));
+        v.push((Op::Ttl { ids: all.clone(), mode: 2 }, false));
+        for (n, id) in p.ids.iter().enumerate() {
+            for pos in 0..3 {
+                v.push((Op::FlipRdata { id: *id, pos }, n == 0 && pos == 2));
+            }
+        }
+        v.push((Op::FlipOwner { ids: p.ids.clone(), mask: 1 }, true));
+        v.push((Op::FlipOwner { ids: all.clone(), mask: 1 }, false));
+        v.push((Op::FlipOwner { ids: p.ids.clone(), mask: 0x20 }, false));
+        v.push((Op::FlipOwner { ids: all.clone(), mask: 0x20 }, false));
+        if p.t == T_DNSKEY {
+            for id in &p.ids {
+                for how in 0..=9 {
+                    v.push((Op::Key { id: *id, how }, how == 3));
+                }
+            }
+        }
+        if p.t == T_DS {
+            for id in &p.ids {
+                for how in 0..=7 {
+                    v.push((Op::Ds { id: *id, how }, how == 0));
+                }
+            }
+        }
+        if p.t == T_NSEC3 && z.secure {
+            for variant in 0..=6 {
+                v.push((Op::N3Owner { ids: all.clone(), variant, resign: false }, variant == 0));
+                v.push((Op::N3Owner { ids: all.clone(), variant, resign: true }, variant == 0));
+            }
+            for variant in 0..=4 {
+                v.push((Op::N3Param { ids: all.clone(), variant }, false));
+            }
+        }
+        if !z.secure {
+            continue;
+        }
+        // donors for RRSIG replacement
+        let mut donors: Vec<(usize, Labels, u16)> = vec![];
+        if let Some(d) = z.sigs.keys().find(|(k, t)| *k == p.srck && *t != p.t) {
+            donors.push((p.zi, d.0.clone(), d.1));
+        }
+        if let Some(d) = z.sigs.keys().find(|(k, t)| *k != p.srck && *t == p.t) {
+            donors.push((p.zi, d.0.clone(), d.1));
+        }
+        let ak = key(&z.apex);
+        if !(p.srck == ak && p.t == T_DNSKEY) {
+            donors.push((p.zi, ak.clone(), T_DNSKEY));
+        }
+        for zi2 in [(p.zi + 1) % 3, (p.zi + 2) % 3] {
+            if h.zones[zi2].secure {
+                donors.push((zi2, key(&h.zones[zi2].apex), T_SOA));
+                break;
+            }
+        }
+        for sid in &p.sigids {
+            v.push((Op::DropSig { id: *sid }, true));
+            for (n, (dz, dk, dt)) in donors.iter().enumerate() {
+                for patch in 0..2 {
+                    v.push((Op::ReplaceSig { id: *sid, zone: *dz, owner: show(&unkey(dk)), covered: *dt, patch }, n == 0 && patch == 1));
+                }
+            }
+            for field in 0..=12 {
+                v.push((Op::SigField { id: *sid, field }, field == 9 || field == 6));
+            }
+            v.push((Op::Window { id: *sid, w: 1 }, true));
+            v.push((Op::Window { id: *sid, w: 2 }, true));
+            v.push((Op::ManyBad { id: *sid, n: 50 }, true));
+        }
+    }
+    v
+}
+
+// ------------------------------------------------------------ driver
+
+#[derive(Clone)]
+struct Case {
+    hi: usize,
+    q: Query,
+    faults: Arc<Vec<Fault>>,
+    /// also run through net::client::validator::Connection
+    conn: bool,
+}
+
+fn target_class(t: &Target) -> String {
+    match t {
+        Target::Main => "main".into(),
+        Target::Up(_, ty) => format!("up-{}", tname(*ty)),
+    }
+}
+
+fn kinds_of(faults: &[Fault]) -> String {
+    if faults.is_empty() {
+        return "none".into();
+    }
+    let mut k: Vec<String> = faults.iter().map(|f| format!("{}:{}", target_class(&f.target), f.op.kind())).collect();
+    k.sort();
+    k.dedup();
+    k.join("+")
+}
+
+fn case_json(h: &Hier, c: &Case, via: &str) -> Value {
+    json!({
+        "scenario": h.name,
+        "qname": show(&c.q.name),
+        "qtype": c.q.qtype,
+        "via": via,
+        "faults": serde_json::to_value(&*c.faults).unwrap(),
+    })
+}
+
+struct Run {
+    ctx: Arc<Ctx>,
+    stats: Stats,
+    hiers: Vec<Arc<Hier>>,
+    verbose: bool,
+}
+
+impl Run {
+    fn judge(&self, c: &Case, via: &str, ex: &Exec) {
+        let h = &self.hiers[c.hi];
+        let kinds = kinds_of(&c.faults);
+        let replay = || case_json(h, c, via);
+        self.stats.eval();
+        self.stats.count(&format!("outcome|{via}|{}|{}", kinds_class(&c.faults), ex.verdict.short()));
+        if self.verbose {
+            println!("  {via}: verdict {:?} ede={} upstream calls {} altered messages {}", ex.verdict, ex.ede, ex.calls, ex.altered);
+        }
+        if let Ok(t) = std::env::var("C14_TRACE") {
+            let (k, v) = t.split_once('=').unwrap_or((&t, ""));
+            if via == "validate_msg" && kinds.contains(k) && (v.is_empty() || ex.verdict.short() == v) && ex.altered > 0 {
+                println!("TRACE {} {} {} {:?} -> {:?} {}", h.name, show(&c.q.name), tname(c.q.qtype), c.faults, ex.verdict, ex.ede);
+            }
+        }
+        if let Verdict::Panic(p) = &ex.verdict {
+            self.ctx.violation(
+                &format!("C14|validator|panic|{}", panic_sig(p)),
+                &format!("validator panicked ({p}) on scenario {} query {} {} with faults {kinds}", h.name, show(&c.q.name), tname(c.q.qtype)),
+                replay(),
+            );
+            return;
+        }
+        if ex.verdict.secure() && c.faults.iter().any(|f| f.op == Op::DsSignedByChild) {
+            self.stats.count("info|ds-rrset-signed-by-the-child-zone-key-reported-secure");
+        }
+        let found = self.raw_findings(c, ex);
+        if self.verbose {
+            println!("  {via}: oracle findings: {}", found.len());
+        }
+        for f in found {
+            // attribute a finding of a multi-fault case to a single fault if that fault alone produces it
+            let mut attributed = kinds.clone();
+            let mut rc = c.clone();
+            if c.faults.len() > 1 {
+                for single in c.faults.iter() {
+                    let sc = Case { hi: c.hi, q: c.q.clone(), faults: Arc::new(vec![single.clone()]), conn: c.conn };
+                    let sex = if via == "connection" { run_conn(h, &sc.q, &sc.faults) } else { run_direct(h, &sc.q, &sc.faults) };
+                    if self.raw_findings(&sc, &sex).iter().any(|x| x.sig == f.sig) {
+                        attributed = kinds_of(&sc.faults);
+                        rc = sc;
+                        break;
+                    }
+                }
+            }
+            let mut sig = f.sig.replace("{F}", &attributed);
+            if via == "connection" {
+                sig = sig.replace("C14|validator|", "C14|connection|");
+            }
+            self.ctx.violation(&sig, &format!("{} [scenario {} query {} {}]", f.what, h.name, show(&c.q.name), tname(c.q.qtype)), case_json(h, &rc, via));
+        }
+        if c.faults.is_empty() {
+            let exp = expected_unmodified(h, &c.q);
+            let got = ex.verdict.short();
+            if !exp.contains(&got.as_str()) {
+                let truth = h.classify(&c.q.name, c.q.qtype);
+                let comp = if via == "connection" { "connection" } else { "validator" };
+                let what = if exp[0] == "Insecure" { "below-insecure-delegation" } else { "correctly-signed" };
+                self.ctx.violation(
+                    &format!("C14|{comp}|unmodified-{what}-reported-{got}|denial={}|answer={}", if h.nsec3 { if h.opt_out { "nsec3-optout" } else { "nsec3" } } else { "nsec" }, truth.short()),
+                    &format!("unmodified authentic answer for {} {} in scenario {} reported {:?} (ede {}), expected {:?}", show(&c.q.name), tname(c.q.qtype), h.name, ex.verdict, ex.ede, exp),
+                    replay(),
+                );
+            }
+        } else if ex.altered > 0 {
+            // information only (outside the property text): a tampered answer for a name of a SECURE zone
+            // that is reported Insecure instead of Bogus
+            if c.faults.len() == 1 && via == "validate_msg" && ex.verdict.short() == "Insecure" && expected_unmodified(h, &c.q) == vec!["Secure"] {
+                self.stats.count(&format!("info|secure-zone-answer-reported-insecure-after|{}", kinds));
+            }
+            self.stats.distinct(fnv(format!("{}|{}|{}|{:?}", h.name, show(&c.q.name), c.q.qtype, c.faults).as_bytes()));
+            // information only: TTL clamping (RFC 4035 5.3.3) is not part of the property text
+            if ex.verdict.secure() && c.faults.iter().any(|f| matches!(f.op, Op::Ttl { mode: 0 | 2, .. }) && f.target == Target::Main) {
+                if let Some(p) = parse_lenient(&ex.out) {
+                    let high = p.sets.iter().flatten().any(|x| x.2 > 100_000);
+                    self.stats.count(if high { "info|secure-with-ttl-above-original-left-in-message" } else { "info|secure-ttl-clamped" });
+                }
+            }
+        } else {
+            self.stats.count("vacuous|fault-did-not-alter-any-delivered-message");
+        }
+    }
+
+    /// Oracle findings with the placeholder {F} for the fault kinds.
+    fn raw_findings(&self, c: &Case, ex: &Exec) -> Vec<Finding> {
+        let h = &self.hiers[c.hi];
+        let mut found = vec![];
+        if ex.over_budget {
+            found.push(Finding {
+                sig: "C14|validator|upstream-budget-exceeded|fault={F}".into(),
+                what: format!("more than {BUDGET} upstream queries for one validation"),
+            });
+        }
+        if ex.verdict.secure() && !c.faults.iter().any(|f| f.op.owner_adversary()) {
+            found.extend(check_secure(h, &ex.out, "{F}"));
+        }
+        found
+    }
+
+    fn run_case(&self, c: &Case, wd: Option<&Watchdog>) {
+        let h = &self.hiers[c.hi];
+        if let Some(wd) = wd {
+            wd.enter(|| case_json(h, c, "validate_msg"));
+        }
+        let ex = run_direct(h, &c.q, &c.faults);
+        self.judge(c, "validate_msg", &ex);
+        if c.conn {
+            let ex2 = run_conn(h, &c.q, &c.faults);
+            self.judge(c, "connection", &ex2);
+        }
+        if let Some(wd) = wd {
+            wd.leave();
+        }
+    }
+}
+
+/// Panic class without the variable part of the message and without toolchain paths.
+fn panic_sig(p: &str) -> String {
+    let c = panic_class(p);
+    let (m, loc) = c.rsplit_once(" @ ").unwrap_or((&c, ""));
+    let m = m.split(':').next().unwrap_or(m);
+    let loc = if loc.starts_with("/rustc/") { "rust-std" } else { loc };
+    format!("{m} @ {loc}")
+}
+
+fn kinds_class(faults: &[Fault]) -> String {
+    match faults.len() {
+        0 => "none".into(),
+        1 => faults[0].op.kind(),
+        _ => "pair".into(),
+    }
+}
+
+/// All cases for one (hierarchy, query).
+fn cases_for(hiers: &[Arc<Hier>], hi: usize, q: &Query, swap_only: bool, pairs: u8, counts: &Mutex<BTreeMap<String, u64>>) -> (Vec<Case>, Vec<Fault>) {
+    let h = &hiers[hi];
+    let none = Arc::new(vec![]);
+    let base = run_direct(h, q, &none);
+    let mut out = vec![Case { hi, q: q.clone(), faults: none, conn: true }];
+    let mut targets: Vec<(Target, Resp)> = vec![(Target::Main, h.answer(&q.name, q.qtype))];
+    for (n, t) in &base.asked {
+        let tg = Target::Up(show(n), *t);
+        if !targets.iter().any(|x| x.0 == tg) {
+            targets.push((tg, h.answer(n, *t)));
+        }
+    }
+    let mut singles: Vec<(Fault, bool)> = vec![];
+    for (tg, resp) in &targets {
+        let main = *tg == Target::Main;
+        if swap_only && !main {
+            continue;
+        }
+        for (op, rep) in enumerate_ops(h, resp, main, swap_only) {
+            singles.push((Fault { target: tg.clone(), op }, rep));
+        }
+    }
+    // specials
+    if !swap_only {
+        let truth = h.classify(&q.name, q.qtype);
+        if let Truth::Pos { zone, .. } = truth {
+            if h.kind == Kind::InsecureChild && h.zones[zone].secure {
+                for s in 0..2 {
+                    singles.push((Fault { target: Target::Main, op: Op::InjectInsecure { s } }, s == 0));
+                }
+            }
+            if h.kind == Kind::Secure && zone == 2 {
+                out.push(Case {
+                    hi,
+                    q: q.clone(),
+                    faults: Arc::new(vec![Fault { target: Target::Main, op: Op::Forge }, Fault { target: Target::Up("zone.tld.".into(), T_DNSKEY), op: Op::Forge }]),
+                    conn: true,
+                });
+            }
+            if h.kind == Kind::Secure && zone == 1 {
+                if ends_with(&q.name, &h.zones[2].apex) {
+                    singles.push((Fault { target: Target::Main, op: Op::DsSignedByChild }, false));
+                } else {
+                    singles.push((Fault { target: Target::Main, op: Op::OutOfBailiwick }, true));
+                }
+            }
+        }
+    }
+    {
+        let mut g = counts.lock().unwrap();
+        *g.entry("positions|targets".into()).or_insert(0) += targets.len() as u64;
+        *g.entry("positions|rrsets".into()).or_insert(0) += targets.iter().map(|t| sets_of(&t.1).len() as u64).sum::<u64>();
+        *g.entry("positions|records".into()).or_insert(0) += targets.iter().map(|t| t.1.sec.iter().map(|s| s.len() as u64).sum::<u64>()).sum::<u64>();
+        *g.entry("cases|single".into()).or_insert(0) += singles.len() as u64;
+    }
+    for (f, _) in &singles {
+        out.push(Case { hi, q: q.clone(), faults: Arc::new(vec![f.clone()]), conn: true });
+    }
+    // menu for fault pairs: 0 none, 1 the representatives (one per kind and position), 2 every single fault
+    let menu: Vec<Fault> = match pairs {
+        0 => vec![],
+        1 => singles.iter().filter(|x| x.1).map(|x| x.0.clone()).collect(),
+        _ => singles.iter().map(|x| x.0.clone()).collect(),
+    };
+    *counts.lock().unwrap().entry("cases|pair".into()).or_insert(0) += (menu.len() * menu.len().saturating_sub(1) / 2) as u64;
+    (out, menu)
+}
 
 fn main() {
     let ctx = Ctx::new("C14", "fault_enumeration");
     let now = std::time::SystemTime::now().duration_since(std::time::UNIX_EPOCH).unwrap().as_secs() as u32;
-    let h = Arc::new(build_hier("S1-nsec-secure", Kind::Secure, false, false, now));
-    let h2 = Arc::new(build_hier("S2-nsec3-secure", Kind::Secure, true, false, now));
-    let h3 = Arc::new(build_hier("S3-nsec-insecure-child", Kind::InsecureChild, false, false, now));
-    let h4 = Arc::new(build_hier("S3b-nsec3-insecure-child", Kind::InsecureChild, true, false, now));
-    let h5 = Arc::new(build_hier("S5-nsec3-optout-insecure-child", Kind::InsecureChild, true, true, now));
-    let qs = [
-        ("www.zone.tld.", T_A), ("x.w.zone.tld.", T_A), ("www.zone.tld.", T_TXT), ("nx.zone.tld.", T_A), ("zone.tld.", T_DS), ("www.tld.", T_A),
-        ("b.zone.tld.", T_A), ("cn.zone.tld.", T_A), ("ext.zone.tld.", T_A), ("x.w.zone.tld.", T_MX), ("nx.tld.", T_A), ("tld.", T_DS),
-        ("zone.tld.", T_DNSKEY), ("zone.tld.", T_SOA), ("deep.nx.zone.tld.", T_A), ("explicit.w.zone.tld.", T_A), ("y.x.w.zone.tld.", T_A),
+    let quick = ctx.quick();
+    let specs: Vec<(&'static str, Kind, bool, bool)> = vec![
+        ("S1-nsec-secure", Kind::Secure, false, false),
+        ("S2-nsec3-secure", Kind::Secure, true, false),
+        ("S3-nsec-insecure-child", Kind::InsecureChild, false, false),
+        ("S3b-nsec3-insecure-child", Kind::InsecureChild, true, false),
+        ("S5-nsec3-optout-insecure-child", Kind::InsecureChild, true, true),
     ];
-    for h in [&h, &h2, &h3, &h4, &h5] {
-        for (n, t) in qs {
-            let q = Query { name: nm(n), qtype: t };
-            let ex = run_direct(h, &q, &Arc::new(vec![]));
-            let ex2 = run_conn(h, &q, &Arc::new(vec![]));
-            println!("{} {} {}: {:?} ede={} calls={} asked={:?} expect={:?} conn={:?}", h.name, n, tname(t), ex.verdict, ex.ede, ex.calls, ex.asked.iter().map(|(a, b)| format!("{} {}", show(a), tname(*b))).collect::<Vec<_>>(), expected_unmodified(h, &q), ex2.verdict);
-            if ex.verdict.secure() {
-                println!("   findings: {:?}", check_secure(h, &ex.out, "none"));
+    let hiers: Vec<Arc<Hier>> = specs.par_iter().map(|(n, k, n3, oo)| Arc::new(build_hier(n, *k, *n3, *oo, now))).collect();
+    let run = Run { ctx: ctx.clone(), stats: Stats::new(), hiers, verbose: ctx.replay.is_some() };
+
+    if let Some(path) = &ctx.replay {
+        let v: Value = serde_json::from_str(&std::fs::read_to_string(path).expect("replay file")).expect("json");
+        let c = &v["case"];
+        let hi = run.hiers.iter().position(|h| h.name == c["scenario"].as_str().unwrap_or("")).expect("scenario");
+        let faults: Vec<Fault> = serde_json::from_value(c["faults"].clone()).expect("faults");
+        let case = Case { hi, q: Query { name: unshow(c["qname"].as_str().unwrap()), qtype: c["qtype"].as_u64().unwrap() as u16 }, faults: Arc::new(faults), conn: true };
+        println!("replaying: scenario {} query {} {} faults {:?}", run.hiers[hi].name, show(&case.q.name), tname(case.q.qtype), case.faults);
+        run.run_case(&case, None);
+        ctx.finish(json!({"evaluations": run.stats.evals(), "distinct_nontrivial": run.stats.distinct_count(), "rule": "replay", "samples": [c], "exhaustive": false}), &["replay of one case"]);
+    }
+
+    let q = |n: &str, t: u16| Query { name: nm(n), qtype: t };
+    let quick_queries = vec![q("www.zone.tld.", T_A), q("x.w.zone.tld.", T_A), q("www.zone.tld.", T_TXT), q("nx.zone.tld.", T_A), q("zone.tld.", T_DS), q("www.tld.", T_A)];
+    let more_queries = vec![
+        q("b.zone.tld.", T_A),
+        q("cn.zone.tld.", T_A),
+        q("ext.zone.tld.", T_A),
+        q("x.w.zone.tld.", T_MX),
+        q("nx.tld.", T_A),
+        q("tld.", T_DS),
+        q("zone.tld.", T_DNSKEY),
+        q("zone.tld.", T_SOA),
+        q("deep.nx.zone.tld.", T_A),
+        q("explicit.w.zone.tld.", T_A),
+        q("y.x.w.zone.tld.", T_A),
+    ];
+    // ring of non-existent names around every name of zone.tld (incl. before the first and after the last)
+    let ring = vec!["0.zone.tld.", "a.a.b.zone.tld.", "c.b.zone.tld.", "bb.zone.tld.", "d.zone.tld.", "f.zone.tld.", "m.zone.tld.", "nt.zone.tld.", "v.zone.tld.", "x.explicit.w.zone.tld.", "ww.zone.tld.", "wwww.zone.tld.", "zzzz.zone.tld.", "0.tld.", "m.tld.", "zzzzz.tld."];
+    let nh = if quick { 4 } else { run.hiers.len() };
+    // (hierarchy, query, swap-only, pair mode)
+    let mut plan: Vec<(usize, Query, bool, u8)> = vec![];
+    for hi in 0..nh {
+        for qq in &quick_queries {
+            plan.push((hi, qq.clone(), false, if quick { 1 } else { 2 }));
+        }
+        for qq in &more_queries {
+            plan.push((hi, qq.clone(), false, if quick { 0 } else { 2 }));
+        }
+        if run.hiers[hi].kind == Kind::Secure {
+            for (n, r) in ring.iter().enumerate() {
+                if quick && n % 2 != 0 {
+                    continue;
+                }
+                plan.push((hi, q(r, T_A), true, 0));
             }
         }
     }
-    let _ = (&ctx, Duration::from_secs(1), json!(null) as Value);
+    let counts = Mutex::new(BTreeMap::new());
+    let planned: Vec<(Vec<Case>, Vec<Fault>)> = plan.par_iter().map(|(hi, qq, swap_only, pairs)| cases_for(&run.hiers, *hi, qq, *swap_only, *pairs, &counts)).collect();
+    run.stats.merge_counts(&counts.lock().unwrap());
+    if std::env::var("C14_DRY").is_ok() {
+        println!("{}", run.stats.counters_json());
+        return;
+    }
+    let wd = Watchdog::start(ctx.clone(), Duration::from_secs(60), |d| format!("C14|validator|hang|fault={}", {
+        let fs: Vec<Fault> = serde_json::from_value(d["faults"].clone()).unwrap_or_default();
+        kinds_of(&fs)
+    }));
+    let cases: Vec<&Case> = planned.iter().flat_map(|p| p.0.iter()).collect();
+    cases.par_iter().for_each(|c| run.run_case(c, Some(&wd)));
+    // pairs, generated row by row
+    let rows: Vec<(usize, usize)> = planned.iter().enumerate().flat_map(|(pi, p)| (0..p.1.len()).map(move |i| (pi, i))).collect();
+    let n_pairs = std::sync::atomic::AtomicU64::new(0);
+    rows.par_iter().for_each(|(pi, i)| {
+        let menu = &planned[*pi].1;
+        let (hi, qq, _, _) = &plan[*pi];
+        for j in i + 1..menu.len() {
+            let c = Case { hi: *hi, q: qq.clone(), faults: Arc::new(vec![menu[*i].clone(), menu[j].clone()]), conn: false };
+            run.run_case(&c, Some(&wd));
+            n_pairs.fetch_add(1, AO::Relaxed);
+        }
+    });
+
+    for c in cases.iter().filter(|c| c.faults.len() == 1).step_by((cases.len() / 6).max(1)) {
+        run.stats.sample(8, || case_json(&run.hiers[c.hi], c, "validate_msg"));
+    }
+    // histograms
+    let counters = run.stats.counters.lock().unwrap().clone();
+    let mut verdicts: BTreeMap<String, u64> = BTreeMap::new();
+    let mut per_kind: BTreeMap<String, BTreeMap<String, u64>> = BTreeMap::new();
+    for (k, n) in &counters {
+        let p: Vec<&str> = k.split('|').collect();
+        if p[0] == "outcome" && p[1] == "validate_msg" {
+            *verdicts.entry(p[3].to_string()).or_insert(0) += n;
+            *per_kind.entry(p[2].to_string()).or_default().entry(p[3].to_string()).or_insert(0) += n;
+        }
+    }
+    let other: BTreeMap<&String, &u64> = counters.iter().filter(|(k, _)| !k.starts_with("outcome|")).collect();
+    ctx.finish(
+        json!({
+            "evaluations": run.stats.evals(),
+            "distinct_nontrivial": run.stats.distinct_count(),
+            "rule": "one evaluation = one run of the real validator (validate_msg, or Connection for single faults) on a fresh ValidationContext with the oracle applied; non-trivial = a faulted case in which at least one message delivered to the validator (the validated answer or an upstream DS/DNSKEY response) differs in its octets from the authentic one; distinct by hash of (scenario, query, fault list)",
+            "exhaustive": true,
+            "bound": if quick { "quick: scenarios S1,S2,S3,S3b x 17 queries: every single fault of the menu at every position (validate_msg and Connection); every second name of the NXDOMAIN ring x every NSEC/NSEC3 swap; all pairs of representative faults (one per kind and position) for 6 queries" } else { "thorough: 5 scenarios x 17 queries: every single fault at every position (validate_msg and Connection); full NXDOMAIN ring x every NSEC/NSEC3 swap; ALL pairs of single faults for all 17 queries of all 5 scenarios" },
+            "scenarios": run.hiers.iter().take(nh).map(|h| h.name).collect::<Vec<_>>(),
+            "query_plans": plan.len(),
+            "cases": cases.len() as u64 + n_pairs.load(AO::Relaxed),
+            "single_and_baseline_cases": cases.len(),
+            "pair_cases": n_pairs.load(AO::Relaxed),
+            "verdict_histogram_validate_msg": verdicts,
+            "verdicts_per_fault_kind": per_kind,
+            "counters": other,
+            "upstream_query_budget": BUDGET,
+            "samples": run.stats.samples(),
+        }),
+        &[
+            "the hierarchy is signed by the library's own signer (sign_zone / sign_rrset); its correctness is C12/C13's subject; the harness cross-checks NSEC3 hashes, key tags and DS digests with its own implementations",
+            "the validator reads the wall clock: signatures are made for [now-1d, now+1d]; expired / not-yet-valid faults are real re-signings with windows in the past / future",
+            "dnssec::validator::nsec is a private module, so nsec_in_range / nsec3_in_range are exercised end-to-end (NXDOMAIN ring x every NSEC/NSEC3 of the zone) instead of as unit calls",
+            "faults that need the zone's private key (re-signed NSEC3 owner / parameter changes) are judged for panic / termination only",
+            "ECDSA signatures and the attacker key are freshly randomised per run; counts do not depend on them",
+        ],
+    );
 }
-// @@NEXT@@
